@@ -304,7 +304,7 @@ func init() {
 			{Name: "numeric-edges", Quick: []int{1}, Run: func(c *explore.Chooser, x *explore.Ctx, _ int) {
 				// numbers at the edges of the integer and double ranges in every numeric parameter that is not a size
 				// (padding widths, range bounds and repetition counts are bounded by the statement)
-				edges := []string{"0", "-1", "0.5", "-0.5", "2147483648", "-2147483649", "9007199254740993", "1e18", "9.3e18", "-9.3e18", "1e19", "1e300", "-1e300", "5e-324", "1.7e308", "-1.7e308"}
+				edges := []string{"0", "-1", "0.5", "-0.5", "2147483648", "-2147483649", "9007199254740992", "9007199254740993", "-9007199254740992", "1e16", "1e18", "9.3e18", "-9.3e18", "1e19", "1e300", "-1e300", "5e-324", "1.7e308", "-1.7e308"}
 				shapes := []string{
 					`$substring("héllo", E)`, `$substring("héllo", E, F)`, `$substring("héllo", 1, E)`, `$split("a,b,c", ",", E)`, `$replace("aaa", "a", "b", E)`,
 					`$replace("aaa", /a/, "b", E)`, `$match("aaa", /a/, E)`, `$round(E)`, `$round(E, F)`, `$round(2.5, E)`, `$power(E, F)`, `$power(2, E)`, `$sqrt(E)`, `$abs(E)`,
@@ -312,6 +312,7 @@ func init() {
 					`$formatNumber(E, "0%")`, `$fromMillis(E)`, `$fromMillis(E, "[Y]-[M]-[D] [H]:[m]:[s].[f]")`, `$fromMillis(E, (), "+0100")`, `$string(E)`, `$number("E")`,
 					`[1,2,3][E]`, `[1,2,3][[E, F]]`, `$sum([E, F])`, `$average([E, F])`, `$max([E, F])`, `E + F`, `E * F`, `E / F`, `E % F`, `E & ""`, `-(E)`,
 					`$zip([1,2],[3,4])[E]`, `$reduce([1,2,3], function($a,$b){$a+$b}, E)`, `$map([E, F], $string)`, `$sort([E, F, 1])`, `$toMillis($fromMillis(E))`,
+					`[E..E]`, `$count([E..E + 2])`, `$count([E - 2..E])`, `[E..E].$string()`,
 					`$formatInteger(E, "w")`, `$pad("x", 3, $string(E))`, `$join([$string(E), $string(F)], ",")`, `$boolean(E)`, `$not(E)`, `$type(E)`, `$count([E])`,
 				}
 				shape := shapes[c.Choose(len(shapes))]
